@@ -3,4 +3,5 @@ EXTENDS AttrSet
 MCVals == @VALS@
 MCPreds == @PREDS@
 MCOps == @OPS@
+MCBulks == @BULKS@
 =============================================================================
